@@ -40,7 +40,7 @@ Options == [indent : Indents, sort : BOOLEAN, omitnil : BOOLEAN, omitempty : BOO
 \* universes for the design-check configurations (records cannot be written in a .cfg file)
 DInt(neg, ds, e) == [t |-> "int", dec |-> [neg |-> neg, digits |-> ds, exp10 |-> e]]
 LeavesQuick == {[t |-> "null"], [t |-> "str", v |-> <<>>], DInt(TRUE, <<1>>, 1)}
-LeavesFull  == {[t |-> "null"], [t |-> "str", v |-> <<>>], [t |-> "str", v |-> <<97, 34, 60, 1>>], DInt(FALSE, <<>>, 0), [t |-> "bool", v |-> FALSE]}
+LeavesFull  == {[t |-> "null"], [t |-> "str", v |-> <<>>], [t |-> "str", v |-> <<97, 34, 60, 1>>], DInt(TRUE, <<1>>, 1)}
 KeysSmall   == <<<<97>>, <<97, 34>>, <<98>>>>
 
 \* ---------------------------------------------------------------- the program of a tree
